@@ -9,7 +9,7 @@ from .. import contracts, gen, ref
 from ..core import FAILED
 
 DECIDING = ["contract:partial_transpose", "O2:involution", "O2:all=transpose", "O2:complement", "contract:realignment",
-            "O3:realign-product", "O3:frobenius", "O4:cvxpy-value"]
+            "O3:realign-product", "O3:frobenius", "O4:cvxpy-value", "H1:repeat-call"]
 RULE = ("cases = square (dims 1..4, n<=5) and rectangular (dims 2..4, n<=3) operators x every subset S as list/array/int x dtype, "
         "unique-id entries; realignment on square and rectangular bipartite blocks with every dim calling form; a signature is "
         "(monitor, n, |S|, rectangular?) and is non-trivial when the result differs from the input")
@@ -37,6 +37,8 @@ def cases(tier):
         out.append(("realign", r))
     for r in range(40 if tier == "quick" else 4000):
         out.append(("cvx", r))
+    for r in range(40 if tier == "quick" else 3000):
+        out.append(("repeat", r))
     if tier == "thorough":
         out.append(("suite", 0))
     return out
@@ -180,3 +182,27 @@ def _run_suite(ctx, spec, rng):
     from ..suiterun import run_suite_under_contract
 
     run_suite_under_contract(ctx, ['partial_transpose', 'realignment', 'permute_systems', 'swap'], "suite-under-contract")
+
+
+def _run_repeat(ctx, spec, rng):
+    """History monitor: the same argument objects (sys / dim given as ndarrays) used for two consecutive calls."""
+    from toqito.channels import partial_transpose, realignment
+
+    from ..core import repeat_call
+
+    n = int(rng.integers(2, 4))
+    rect = bool(spec[1] % 2)
+    dr = gen.dims(rng, n, 2, 3, max_total=36)
+    dc = gen.dims(rng, n, 2, 3, max_total=36) if rect else list(dr)
+    x = gen.unique_ids((int(np.prod(dr)), int(np.prod(dc))), "i")
+    s = sorted(int(v) for v in rng.permutation(n)[:int(rng.integers(1, n + 1))])
+    dim_arr = np.array([dr, dc]) if rect or spec[1] % 3 == 0 else np.array(dr)
+    sys_arr = np.array(s)
+    mech_note = "2-row-ndarray-dim" if dim_arr.ndim == 2 else "1-D-ndarray-dim"
+    res = repeat_call(ctx, "H1:repeat-call", partial_transpose, [x, sys_arr, dim_arr], ["rho", "sys", "dim"], sig=(n, rect, mech_note))
+    if res is not FAILED:
+        ctx.check("O2:involution", np.array_equal(res, ref.partial_transpose(x, s, dr, dc)), sig=("repeat", n, rect), mech="partial_transpose:index-exchange[ndarray-args]", detail={"dr": dr, "dc": dc, "s": s})
+    a, b, c, e = (int(v) for v in rng.integers(2, 4, size=4))
+    y = gen.unique_ids((a * b, c * e), "f")
+    repeat_call(ctx, "H1:repeat-call", realignment, [y, np.array([[a, b], [c, e]])], ["input_mat", "dim"], sig=("realignment",))
+    ctx.sample("H1:repeat-call", {"dr": dr, "dc": dc, "sys": s})
